@@ -172,6 +172,20 @@ def run(tier):
                            extra=syms2, functions=fq,
                            what='swaps of wires whose images are Dims of different lengths (incl. Dim(1)) are '
                                 'interpreted by their defining tensor')
+        # the functor's special cases agree with the library's own defining tensors (Tensor.swap / cups / caps)
+        from discopy.tensor import Tensor
+        FT = lambda t: F2(t)
+        for l, r in [(x, y), (y, x), (y, y), (x @ y, y), (y, x @ x), (z, y), (y @ y, x)]:
+            suite.identity('swap.defining_tensor[%s,%s]' % (l, r), entries(mat(F2(Diagram.swap(l, r)))),
+                           entries(mat(Tensor.swap(FT(l), FT(r)))), functions=fq + ['tensor.Tensor.swap'],
+                           what='F(swap(l, r)) is Tensor.swap(F(l), F(r)), the defining tensor of the swap')
+        for t in [x, y, x @ y, y @ x @ y]:
+            suite.identity('cups.defining_tensor[%s]' % t, entries(mat(F2(Diagram.cups(t, t.r)))),
+                           entries(mat(Tensor.cups(FT(t), FT(t.r)))), functions=fq + ['tensor.Tensor.cups'],
+                           what='F(cups(t, t.r)) is Tensor.cups(F(t), F(t.r))')
+            suite.identity('caps.defining_tensor[%s]' % t, entries(mat(F2(Diagram.caps(t, t.l)))),
+                           entries(mat(Tensor.caps(FT(t), FT(t.l)))), functions=fq + ['tensor.Tensor.caps'],
+                           what='F(caps(t, t.l)) is Tensor.caps(F(t), F(t.l))')
     DIMS = saved
     # sums, spiders, bubbles, Diagram.eval
     with suite.guard('sum', fq):
